@@ -13,7 +13,8 @@
 (* orchestrator to the forms whose amd64 twin was grounded.  A lift that   *)
 (* fails with Sort is rejected whatever the module says about the          *)
 (* instruction.  One tagged PrintT line per instance lets the orchestrator *)
-(* count: UNSPEC / UNSURE / UNGROUNDED / NOTACCEPTED / FAULT / JUDGED.     *)
+(* count: GROUNDED (cpu agreed) / UNSPEC / UNSURE / UNGROUNDED /            *)
+(* NOTACCEPTED / FAULT / JUDGED.                                           *)
 (***************************************************************************)
 EXTENDS X86, TraceLib
 
@@ -96,7 +97,7 @@ Cpu(e) ==
      ELSE IF exp.k = "fault" THEN
           g' = "unsure" /\ Tag("UNSURE", ToJson([mn |-> e0.ins.mn, asm |-> e0.asm, cpu |-> "ok", spec |-> "fault"]))
      ELSE LET m == Mismatch(exp, r.ok) IN
-          IF Clean(m) THEN g' = "agree"
+          IF Clean(m) THEN g' = "agree" /\ Tag("GROUNDED", e0.ins.mn)
           ELSE g' = "unsure" /\ Tag("UNSURE", ToJson([mn |-> e0.ins.mn, asm |-> e0.asm, diff |-> m]))
 
 Lifted(e) ==
